@@ -106,6 +106,13 @@ pub fn run_hungarian(data: &Value) -> Vec<Line> {
             if let Some(Some(o)) = opt {
                 lines.push(Line::direct(&["C07"], o == sc as i64, format!("brute-force optimum {} vs returned score {}", o, sc)).trivial(live <= 1));
             }
+            if opt.is_none() && !huge {
+                // beyond the brute-force range the reference optimum is the score of the Lean model of
+                // the unchanged routine, which is proved optimal (Props.C07_partial)
+                let mut l = Line::spec(&["C07"], "HO", text.clone(), format!("opt={}", sc));
+                l.what = format!("returned score {} must equal the optimum (score of the proved-optimal model)", sc);
+                lines.push(l);
+            }
         }
         Err(_) if huge => {
             // beyond the property's weight bound an i32 overflow (a panic in this build) is legitimate;
@@ -153,6 +160,9 @@ pub fn gen_node(r: &mut Rng, tier: &str, rooms: u8, nondyadic: bool, name: &'sta
             };
             if rooms == 2 && i % 6 == 2 {
                 gen::make_fixed_unpopular(r, &mut inst);
+            }
+            if rooms == 2 && i % 20 == 9 {
+                inst = gen::gen_room_cancel_twice(r);
             }
             Case { stream: name, data: json!({"inst": inst.to_json(), "max_nodes": if big { 120 } else { 60 }}) }
         })
@@ -336,6 +346,9 @@ pub fn gen_solve(r: &mut Rng, tier: &str, rooms: u8, name: &'static str) -> Vec<
             }
             if rooms >= 1 && i % 20 == 15 {
                 inst = gen::gen_f32_tiny_fraction(r);
+            }
+            if rooms == 2 && i % 20 == 5 {
+                inst = gen::gen_room_cancel_twice(r);
             }
             let mut small = small && inst.parts.len() <= 7 && inst.courses.len() <= 4;
             if rooms == 2 && i % 10 == 1 {
@@ -711,12 +724,19 @@ pub fn run_selections(data: &Value) -> Vec<Line> {
             out.push(format!("{}/{}", sel.iter().map(|x| x.to_string()).collect::<Vec<_>>().join(","), hint.0));
             all.push(sel);
         }
-        (out.join(";"), all)
+        // polling past the end (chunked consumption, a size hint after the loop): stays exhausted
+        let mut past_ok = true;
+        for _ in 0..3 {
+            past_ok &= it.next().is_none();
+            past_ok &= k == 0 || it.size_hint() == (0, Some(0));
+        }
+        (out.join(";"), all, past_ok)
     });
     let mut lines = vec![];
     match res {
         Err(e) => lines.push(Line::direct(&["C20"], false, format!("iterator panicked for n={} k={}: {}", n, k, e))),
-        Ok((text, all)) => {
+        Ok((text, all, past_ok)) => {
+            lines.push(Line::direct(&["C20"], past_ok, format!("n={} k={}: after the last selection the enumeration stays exhausted (next() = None, size hint 0) when polled again", n, k)).trivial(k == 0 || k > n));
             // k = 0: the hint of the empty enumeration is not part of the claim
             let (payload, expect) = (format!("{} {}", n, k), text);
             if k == 0 {
